@@ -115,6 +115,7 @@ func TestC07_OnlyTheMatchingTransactionProvesDelivery(t *testing.T) {
 			return nil, nil
 		}
 		// bring a new snapshot into being and publish it: returns the queued message ready for relay (estimate elected, signed)
+		unsignedMsg := rapid.IntRange(0, 11).Draw(t, "messageStillUnsigned") == 0
 		prepare := func(gas uint64) (uint64, bool) {
 			// change a stake by more than 1 % so that the new snapshot is worth keeping
 			blk(c.MustSign(alice, stakingtypes.NewMsgDelegate(alice.Addr.String(), c.Vals[0].Val().String(), sdk.NewCoin(chain.BondDenom, sdkmath.NewInt(40_000_000)))))
@@ -142,6 +143,10 @@ func TestC07_OnlyTheMatchingTransactionProvesDelivery(t *testing.T) {
 			bz, err := m.GetBytesToSign(c.App.AppCodec())
 			if err != nil {
 				t.Fatalf("bytes: %v", err)
+			}
+			if unsignedMsg {
+				// nobody has signed the message yet when the "proof" arrives
+				return s.Id, true
 			}
 			txs = nil
 			for _, v := range c.Vals {
@@ -250,6 +255,11 @@ func TestC07_OnlyTheMatchingTransactionProvesDelivery(t *testing.T) {
 		nsig := len(m.GetSignData())
 		variant := rapid.SampledFrom([]string{"valid", "valid", "validShorterPrefix", "power+1", "memberChanged", "valsetID+1", "otherRelayer", "gas+1", "sigR", "sigSwap", "otherSelector", "truncated", "extended",
 			"receiptFailed", "missingReceipt", "belowQuorum", "splitEvidence", "splitReceiptStatus", "replayForSecondMessage"}).Draw(t, "variant")
+		if unsignedMsg {
+			// with no signature collected nothing can be the message's delivery: an unrelated call, a truncated one, or the
+			// right call with an all-zero signature block
+			variant = rapid.SampledFrom([]string{"otherSelector", "truncated", "unsignedRightCall"}).Draw(t, "unsignedVariant")
+		}
 		all := make([]int, n)
 		for i := range all {
 			all[i] = i
